@@ -67,6 +67,8 @@ def main(argv=None):
         if a.replay:
             return replay(a.pid, a.replay)
         common.use_repo()
+        from . import tables
+        tables.load()          # before any worker process is forked
         rep = engine.Report(a.pid, a.tier)
         reg[a.pid](rep, a.tier)
         return rep.finish()
